@@ -83,9 +83,14 @@ def fixup (e : Inst) : Inst :=
 
 /-! ### `echs_instant_diff` (end − beg, milliseconds) -/
 
+/-- `HOUR_OF`: a day as such begins at midnight -/
+def hourOf (i : Inst) : Int := if i.isAllDay then 0 else (i.H : Nat)
+/-- `MSEC_OF`: a second as such begins with its first millisecond (`echs_instant_all_sec_p`: ms = 1023) -/
+def msecOf (i : Inst) : Int := if i.isAllDay || i.ms == allSec then 0 else (i.ms : Nat)
+
 def diff (e b : Inst) : Int :=
   let intra : Int :=
-    ((((e.H : Int) - b.H) * 60 + ((e.M : Int) - b.M)) * 60 + ((e.S : Int) - b.S)) * 1000 + ((e.ms : Int) - b.ms)
+    (((hourOf e - hourOf b) * 60 + ((e.M : Int) - b.M)) * 60 + ((e.S : Int) - b.S)) * 1000 + (msecOf e - msecOf b)
   let (intra, extra) : Int × Int :=
     if intra < 0 then (intra + 86400000, -1)
     else if intra < 86400000 then (intra, 0)
